@@ -775,4 +775,21 @@ theorem session_tiling_complete (hash : Bytes → Digest) (content : Bytes) (put
 example : Tiles idh [1, 2, 3, 4] 0 [⟨0, 1, [1, 2], ⟨[[1], [2]], .eof⟩⟩, ⟨2, 3, [3, 4], ⟨[[3, 4]], .eof⟩⟩] := by
   simp [Tiles, GoodScript, idh]
 
+/-- … so a complete chunked download makes the blob `Present` (and by `crash_history_present_persists` it stays so) -/
+theorem session_complete_present (hash : Bytes → Digest) (sz : Digest → Nat) (k : Disk) (d : Digest)
+    (content : Bytes) (puts : List CPut) (hb : k.blob d = none) (hh : hash content = d) (hne : content ≠ [])
+    (hsz : sz d = content.length) (ht : Tiles hash content 0 puts) :
+    Present hash sz (session hash k d content.length puts).1 d ∧
+    ∀ r ∈ (session hash k d content.length puts).2, r = .ok := by
+  have := session_tiling_complete hash content puts ht
+  unfold session
+  rw [hb]
+  refine ⟨⟨content, by simp only [setBlob_same]; exact this.1, hsz.symm, ?_, hh⟩, this.2⟩
+  intro h0; exact hne (List.eq_nil_of_length_eq_zero h0)
+
+example :
+    let puts : List CPut := [⟨0, 1, [1, 2], ⟨[[1], [2]], .eof⟩⟩, ⟨2, 3, [3, 4], ⟨[[3, 4]], .eof⟩⟩]
+    Tiles idh [1, 2, 3, 4] 0 puts ∧ (session idh Disk.empty [1, 2, 3, 4] 4 puts).1.blob [1, 2, 3, 4] = some [1, 2, 3, 4] := by
+  refine ⟨by simp [Tiles, GoodScript, idh], by decide⟩
+
 end OllamaVerif.C08
